@@ -53,32 +53,60 @@ def run(chk):
         stream = sim.SegStream(split(cin, rcuts))
 
         class InSock(sim.RecSocket):
+            fail = False
+
             def recv(self, n):
                 return stream.read(n)
+
+            def send(self, data):
+                if self.fail:
+                    self.fail = False
+                    raise BrokenPipeError(32, 'Broken pipe')
+                return sim.RecSocket.send(self, data)
         s2 = InSock()
+        # in some runs one send fails at the raw socket (the peer stopped reading): the error is the caller's, and the receive
+        # direction - "independently per direction" - must go on decrypting what the server had already sent
+        fail_at = rng.randrange(len(sends)) if (len(sends) > 0 and rng.random() < 0.3) else None
+        nsent = 0
         wsock = encryption.EncryptedSocketWrapper(s2, enc, dec)
         wfile = encryption.EncryptedFileObjectWrapper(stream, dec)
         got_plain = b''
         # interleave the two directions: a send, then a read, ...
         pending = list(sends)
         guard = 0
+        read_error = None
         while (pending or len(got_plain) < len(inc)) and guard < 100000:
             guard += 1
             if pending:
-                wsock.send(pending.pop(0))
+                if nsent == fail_at:
+                    s2.fail = True
+                try:
+                    wsock.send(pending.pop(0))
+                except OSError:
+                    pass
+                nsent += 1
             if len(got_plain) < len(inc):
                 k = rng.choice([1, 2, 7, 16, 64, 4096])
-                got_plain += (wfile.read(k) if use_file else wsock.recv(k))
+                try:
+                    got_plain += (wfile.read(k) if use_file else wsock.recv(k))
+                except Exception as e:
+                    read_error = exn_name(e)
+                    break
         got_ct = [bytes(x) for x in s2.sends]
         exp_ct = [bytes(x) for x in eout]
         chk.count('stream', [secret.hex(), out.hex()[:100], len(out), len(sends), inc.hex()[:100], len(inc), len(rcuts)], len(out) >= 17 and len(sends) >= 2)
         chk.tally('stream:sends=%s:recv=%s' % ('1' if len(sends) == 1 else 'bytewise' if len(sends) == len(out) else 'n', 'file' if use_file else 'sock'))
         case = {'secret': secret.hex(), 'outgoing': out.hex()[:400], 'send_sizes': [len(x) for x in sends][:50], 'incoming_plain': inc.hex()[:400], 'recv_cuts': rcuts[:50]}
-        if got_ct != exp_ct:
+        if fail_at is not None:
+            chk.tally('stream:one-send-failed')
+        if got_ct != exp_ct and fail_at is None:
             k = next((i for i, (a, b) in enumerate(zip(b''.join(got_ct), b''.join(exp_ct))) if a != b), None)
             chk.violation('stream', 'stream:out:%s' % secret.hex(), {'case': case, 'expected': b''.join(exp_ct).hex()[:400], 'observed': b''.join(got_ct).hex()[:400]},
                           'bytes sent through EncryptedSocketWrapper are not the AES-128-CFB8 (key = IV = secret) encryption of the plaintext as one stream (first difference at byte %s)' % k)
-        if got_plain != inc:
+        if read_error:
+            chk.violation('stream', 'stream:in:raise:%s' % secret.hex(), {'case': dict(case, failed_send_index=fail_at), 'observed': read_error},
+                          'reading through the decrypting wrapper raised %s after %d of %d bytes%s' % (read_error, len(got_plain), len(inc), ' (send number %d had failed at the raw socket)' % fail_at if fail_at is not None else ''))
+        elif got_plain != inc:
             k = next((i for i, (a, b) in enumerate(zip(got_plain, inc)) if a != b), None)
             chk.violation('stream', 'stream:in:%s' % secret.hex(), {'case': case, 'expected': inc.hex()[:400], 'observed': got_plain.hex()[:400]},
                           'bytes read through the decrypting wrapper are not the plaintext an independent AES-128-CFB8 sender encrypted (first difference at byte %s)' % k)
